@@ -32,25 +32,26 @@ def isSubseq : List String → List String → Bool
 theorem gen_no_extraction_failure : Dtn7.Gen.C05.extractionFailures = [] := by decide
 
 /-- The code variant the theorems below are about (`Cfg.seqFirst`, `expiryNow`, `dtlsrFail`, `holdFix`):
-the sequence number is still assigned in `transmit`, after the descriptor was created (D17 open, other
-builder); `calcExpirationDate` counts from now for clock-less bundles (D22 repaired); DTLSR records
+`SendBundle` lets the IdKeeper assign the sequence number before it creates the descriptor (D17 repaired,
+/repo 9fa781b; `transmit` no longer touches the IdKeeper); `calcExpirationDate` counts from now for clock-less bundles (D22 repaired); DTLSR records
 failures; `dispatching` keeps a refused bundle contraindicated. The driver reads the same facts. -/
 theorem gen_variant :
-    Dtn7.Gen.C05.seqAssignedFirst = false ∧ Dtn7.Gen.C05.transmitAssignsSeq = true ∧
+    Dtn7.Gen.C05.seqAssignedFirst = true ∧ Dtn7.Gen.C05.transmitAssignsSeq = false ∧
     Dtn7.Gen.C05.expiryCountsFromNow = true ∧ Dtn7.Gen.C05.dtlsrReportsFailure = true ∧
     Dtn7.Gen.C05.dispatchingHoldsRefused = true := by decide
 
 /-- Call order of the pipeline as `Dtn7.Node.sendBundle / transmit / receive / forward` mirror it. -/
 theorem gen_call_order :
-    isSubseq ["NewBundleDescriptorFromBundle", "c.routing.NotifyNewBundle", "c.transmit"]
+    isSubseq ["c.idKeeper.update", "NewBundleDescriptorFromBundle", "c.routing.NotifyNewBundle", "c.transmit"]
       Dtn7.Gen.C05.sendBundleCalls = true ∧
-    isSubseq ["c.idKeeper.update", "bp.AddConstraint", "bp.Sync", "c.HasEndpoint", "c.bundleDeletion", "c.dispatching"]
+    isSubseq ["bp.AddConstraint", "bp.Sync", "c.HasEndpoint", "c.bundleDeletion", "c.dispatching"]
       Dtn7.Gen.C05.transmitCalls = true ∧
+    Dtn7.Gen.C05.transmitCalls.contains "c.idKeeper.update" = false ∧
     isSubseq ["bp.AddConstraint", "bp.Sync", "c.bundleDeletion", "c.routing.NotifyNewBundle", "c.dispatching"]
       Dtn7.Gen.C05.receiveCalls = true ∧
     isSubseq ["c.routing.DispatchingAllowed", "bp.Bundle", "c.HasEndpoint", "c.localDelivery", "c.forward"]
       Dtn7.Gen.C05.dispatchingCalls = true ∧
-    isSubseq ["bp.AddConstraint", "bp.RemoveConstraint", "bp.Sync", "hc.IsExceeded", "c.bundleDeletion",
+    isSubseq ["bp.AddConstraint", "bp.RemoveConstraint", "bp.Sync", "hc.Increment", "c.bundleDeletion",
         "bp.MustBundle().IsLifetimeExceeded", "c.bundleDeletion", "bp.UpdateBundleAge", "c.bundleDeletion",
         "c.senderForDestination", "c.routing.SenderForBundle", "node.Send", "c.routing.ReportFailure", "wg.Wait",
         "bp.PurgeConstraints", "bp.Sync", "c.bundleContraindicated", "c.bundleContraindicated"]
@@ -146,7 +147,7 @@ time and sequence number 0 share a store key; the second bundle is sent from mem
 happen to be there and is never stored. -/
 theorem same_ms_lost_witness :
     let c : Cfg := { self := 1, algo := .epidemic, mule := false, sensorNodes := [], sprayL := 3, bcast := ⟨999, 0⟩,
-                     seqFirst := false, expiryNow := true, dtlsrFail := true, holdFix := true }
+                     seqFirst := false, skipStored := false, expiryNow := true, dtlsrFail := true, holdFix := true }
     let env : Env := { sendOk := fun _ _ _ => true, prefer := fun _ _ => [], cand := fun _ _ => false }
     let b1 : Bundle := { tag := 1, src := ⟨1, 0⟩, ts := 900, seq := 0, dst := ⟨5, 0⟩, prev := none, lifetime := 3600,
                          hop := none, age := none, delBlock := false, bsCopies := none }
@@ -159,7 +160,7 @@ theorem same_ms_lost_witness :
 `SendBundle`). -/
 theorem same_ms_not_lost_example :
     let c : Cfg := { self := 1, algo := .epidemic, mule := false, sensorNodes := [], sprayL := 3, bcast := ⟨999, 0⟩,
-                     seqFirst := true, expiryNow := true, dtlsrFail := true, holdFix := true }
+                     seqFirst := true, skipStored := false, expiryNow := true, dtlsrFail := true, holdFix := true }
     let env : Env := { sendOk := fun _ _ _ => true, prefer := fun _ _ => [], cand := fun _ _ => false }
     let b1 : Bundle := { tag := 1, src := ⟨1, 0⟩, ts := 900, seq := 0, dst := ⟨5, 0⟩, prev := none, lifetime := 3600,
                          hop := none, age := none, delBlock := false, bsCopies := none }
@@ -172,7 +173,7 @@ theorem same_ms_not_lost_example :
 that waits under epidemic routing clears its pending flag — it is never retried again. -/
 theorem hold_witness :
     let c : Cfg := { self := 1, algo := .epidemic, mule := false, sensorNodes := [], sprayL := 3, bcast := ⟨999, 0⟩,
-                     seqFirst := false, expiryNow := true, dtlsrFail := true, holdFix := false }
+                     seqFirst := false, skipStored := false, expiryNow := true, dtlsrFail := true, holdFix := false }
     let env : Env := { sendOk := fun _ _ _ => true, prefer := fun _ _ => [], cand := fun _ _ => false }
     let b : Bundle := { tag := 2, src := ⟨7, 0⟩, ts := 900, seq := 0, dst := ⟨5, 0⟩, prev := some ⟨2, 0⟩,
                         lifetime := 3600, hop := none, age := none, delBlock := false, bsCopies := none }
@@ -195,7 +196,7 @@ theorem direct_when_connected (c : Cfg) (hfix : c.holdFix = true) (hexp : c.expi
 /-- The gate: a bundle that came from its destination is not dispatched while only that peer is connected. -/
 theorem direct_gate_witness :
     let c : Cfg := { self := 1, algo := .epidemic, mule := false, sensorNodes := [], sprayL := 3, bcast := ⟨999, 0⟩,
-                     seqFirst := false, expiryNow := true, dtlsrFail := true, holdFix := true }
+                     seqFirst := false, skipStored := false, expiryNow := true, dtlsrFail := true, holdFix := true }
     let env : Env := { sendOk := fun _ _ _ => true, prefer := fun _ _ => [], cand := fun _ _ => false }
     let b : Bundle := { tag := 2, src := ⟨7, 0⟩, ts := 900, seq := 0, dst := ⟨2, 1⟩, prev := some ⟨2, 0⟩,
                         lifetime := 3600, hop := none, age := none, delBlock := false, bsCopies := none }
@@ -238,7 +239,7 @@ theorem zero_time_not_swept (c : Cfg) (hexp : c.expiryNow = true) (t at_ : Nat) 
 clock-less bundle whose lifetime has days to go. -/
 theorem zero_time_swept_witness :
     let c : Cfg := { self := 1, algo := .epidemic, mule := false, sensorNodes := [], sprayL := 3, bcast := ⟨999, 0⟩,
-                     seqFirst := false, expiryNow := false, dtlsrFail := true, holdFix := true }
+                     seqFirst := false, skipStored := false, expiryNow := false, dtlsrFail := true, holdFix := true }
     let env : Env := { sendOk := fun _ _ _ => true, prefer := fun _ _ => [], cand := fun _ _ => false }
     let b : Bundle := { tag := 1, src := ⟨7, 0⟩, ts := 0, seq := 0, dst := ⟨5, 0⟩, prev := none, lifetime := 604800000,
                         hop := none, age := some 1000, delBlock := false, bsCopies := none }
@@ -282,7 +283,7 @@ example : Domain [.submit ex_b1, .receive ex_b2 none, .receive ex_b2 none, .peer
 wait, pending, and the direct delivery to node 3 happens when it connects. -/
 example :
     let c : Cfg := { self := 1, algo := .epidemic, mule := false, sensorNodes := [], sprayL := 3, bcast := ⟨999, 0⟩,
-                     seqFirst := false, expiryNow := true, dtlsrFail := true, holdFix := true }
+                     seqFirst := false, skipStored := false, expiryNow := true, dtlsrFail := true, holdFix := true }
     let env : Env := { sendOk := fun a _ n => a == 2 && n == 1, prefer := fun _ _ => [], cand := fun _ _ => false }
     let tr := (trace env (init c 1000) [.submit ex_b1, .receive ex_b2 none, .receive ex_b2 none,
       .peerUp ⟨1, ⟨2, 0⟩⟩, .retryTick, .cleanTick 2000, .restart, .peerUp ⟨2, ⟨3, 0⟩⟩, .retryTick]).map obsOf
